@@ -63,7 +63,7 @@ def hist_mix(rnd, sid, steps=10, objs=("o1", "o2")):
             p = rnd.choice(MIX_SCALARS)
             ops.append({"op": "set", "p": "%s.%s" % (o, p), "v": bits(rnd.randrange(4), 2)})
         elif r < 0.36:
-            p = rnd.choice(["a", "b", "s1.x", "k", "s2.x", "s1.y"])
+            p = rnd.choice(["a", "b", "s1.x", "k", "s2.x", "s1.y", "s1", "s1"])      # also a whole member object
             ops.append({"op": "rand_mode", "p": "%s.%s" % (o, p), "b": rnd.random() < 0.4})
         elif r < 0.44:
             kind = rnd.choice(["rl_clear+", "rl_append", "rl_extend"])
@@ -138,8 +138,30 @@ def witness_ref_unpassed():
     return out
 
 
+def member_rand_mode():
+    """rand_mode switched off on a whole MEMBER OBJECT: every field below it is a constant for the calls that follow, until it
+    is switched on again (calls of all kinds on the owner; a call rooted at the member itself still randomizes it)"""
+    out = []
+    for t in range(3):
+        world = world_mix()
+        ops = [{"op": "construct", "o": "o1"}, {"op": "construct", "o": "o2"},
+               {"op": "rl", "kind": "rl_extend", "p": "o1.rl", "items": [3]}, {"op": "rl", "kind": "rl_extend", "p": "o2.rl", "items": [3]},
+               {"op": "call", "call": mcall("o1")}, {"op": "call", "call": mcall("o2")},
+               {"op": "call", "call": mcall("o1")} if t else {"op": "call", "call": mcall("o2")},
+               {"op": "rand_mode", "p": "o1.s1", "b": False}]       # (frozen at the values the last call left: they satisfy s1's blocks)
+        for k_ in range(3):
+            ops.append({"op": "call", "call": [mcall("o1"), wcall([E(B("ne", F("a"), F("s1.x")))], "o1"),
+                                               {"kind": "free", "roots": ["o1"], "owner": "", "inline": []}][(k_ + t) % 3]})
+            ops.append({"op": "call", "call": mcall("o2")})          # the other instance is not affected
+        ops.append({"op": "probe", "call": wcall([], "o1"), "paths": ["o1.a", "o1.b", "o1.s1.x", "o1.s1.y"], "cap": 300})
+        ops.append({"op": "call", "call": {"kind": "free", "roots": ["o1.s1"], "owner": "", "inline": []}})
+        ops += [{"op": "rand_mode", "p": "o1.s1", "b": True}, {"op": "call", "call": mcall("o1")}, {"op": "call", "call": mcall("o1")}]
+        out.append({"id": "H/member_rand_mode/%d" % t, "world": world, "ops": ops, "tags": []})
+    return out
+
+
 def family_H(tier, seed, n=None):
-    out = witness_ref_unpassed()
+    out = witness_ref_unpassed() + member_rand_mode()
     n = n or (30 if tier == "quick" else 400)
     rnd = random.Random(555)
     for t in range(n // 2):                                   # deterministic core
